@@ -334,6 +334,8 @@ Proof.
   - now apply inv_impl_kill.
   - destruct (s_hs s w); [assumption|].
     apply inv_impl_drop, inv_impl_mark_dirty, inv_impl_try_open, H.
+  - exact H.
+  - unfold set_dirty_live. destruct (is_live s w); [now apply inv_impl_mark_dirty|assumption].
 Qed.
 
 Lemma fold_inv {I : st -> Prop} (step : st -> op -> st) :
@@ -342,6 +344,25 @@ Proof. intros Hs ops. induction ops as [|o r IH]; intros s H; cbn; auto. Qed.
 
 Lemma inv_impl_run ops : inv_impl (run_impl ops).
 Proof. apply (fold_inv step_impl inv_impl_step). apply inv_impl_init. Qed.
+
+(* between the grant and the close of a writer its lock description is never unlocked: in every
+   reachable state every live handle holds its exclusive flock (no LOCK_UN on that description,
+   through whichever descriptor, inside the writer's critical section) *)
+Theorem impl_writer_lock_never_released ops w h :
+  s_hs (run_impl ops) w = Some h -> h_phase h = PLive -> h_lock_mode h = LEx.
+Proof. intros Hw P. exact (ii_live _ (inv_impl_run ops) w h Hw P). Qed.
+
+(* a temporary FileLock on a clone of self.file inside a writer's operation breaks exactly that,
+   before the handle's first commit: the second open is granted on the SAME inode (not the known class) *)
+Definition before_guard : list op := [Create 0; Touch 0; Put 0 1].
+Theorem guard_on_clone_admits_second_writer :
+  let s := touch_with_temporary_guard (run_impl before_guard) 0 in
+  forallb (fun o => match o with Commit _ | Vacuum _ | Drop _ | Doctor _ => false | _ => true end) before_guard = true /\
+  is_live (step_impl (run_impl before_guard) (Open 1)) 1 = false /\      (* unchanged code: refused *)
+  (exists h, s_hs s 0 = Some h /\ h_phase h = PLive /\ h_lock_mode h = LNone) /\
+  stale s = false /\
+  is_live (step_impl s (Open 1)) 0 = true /\ is_live (step_impl s (Open 1)) 1 = true.
+Proof. vm_compute. repeat split. eexists. repeat split. Qed.
 
 (* per inode the lock works: two live handles whose flocks sit on the same inode are one *)
 Lemma impl_one_writer_per_inode ops w1 w2 h1 h2 :
@@ -438,6 +459,11 @@ Proof.
     apply all_on_dir_give_up, all_on_dir_open_lock, all_on_dir_set; cbn; try apply H;
       try (now apply all_on_dir_adddom).
   - now apply all_on_dir_kill.
+  - exact H.
+  - unfold set_dirty_live. destruct (is_live s w); [|assumption].
+    unfold mark_dirty. destruct (s_hs s w) as [h|] eqn:E; [|assumption].
+    destruct H as (Hd & Hl & Ha). destruct (Ha w h E) as [A1 A2].
+    apply all_on_dir_set; cbn; auto. split; auto.
 Qed.
 
 Lemma all_on_dir_run ops : forallb quiet_op ops = true -> all_on_dir (run_impl ops).
@@ -719,6 +745,8 @@ Proof.
   - now apply inv_fixed_kill.
   - destruct (s_hs s w); [assumption|].
     apply inv_fixed_drop, inv_fixed_mark_dirty, inv_fixed_try_open, H.
+  - exact H.
+  - unfold set_dirty_live. destruct (is_live s w); [now apply inv_fixed_mark_dirty|assumption].
 Qed.
 
 Lemma inv_fixed_run ops : inv_fixed (run_fixed ops).
